@@ -1,5 +1,165 @@
 package main
 
-import "time"
+import (
+	"fmt"
+	"os"
+	"sort"
+	"strconv"
+	"strings"
+	"time"
+)
 
-func runProps(t0 time.Time) int { return 0 }
+type propFn func(*Check)
+
+var propTable = map[string]propFn{
+	"C03": checkC03,
+	"C14": checkC14,
+}
+
+func runProps(t0 time.Time) int {
+	if *flagReplay != "" {
+		return replay(t0)
+	}
+	if *flagProp == "" {
+		fmt.Fprintln(os.Stderr, "usage: ncgverif -prop Cxx [-tier quick|thorough]")
+		return 2
+	}
+	seed, _ := strconv.Atoi(os.Getenv("VERIF_SEED"))
+	if t := os.Getenv("VERIF_TIER"); t != "" && *flagTier == "" {
+		*flagTier = t
+	}
+	var ids []string
+	if *flagProp == "all" {
+		for id := range propTable {
+			ids = append(ids, id)
+		}
+		sort.Strings(ids)
+	} else {
+		ids = strings.Split(*flagProp, ",")
+	}
+	rc := 0
+	for _, id := range ids {
+		if r := runOne(id, seed, "", time.Now()); r > rc {
+			rc = r
+		}
+	}
+	return rc
+}
+
+// configs analysed: quick = the host configuration; thorough = four.
+var thoroughConfigs = [][2]string{{"linux", "amd64"}, {"linux", "386"}, {"windows", "amd64"}, {"darwin", "arm64"}}
+
+func runOne(id string, seed int, onlyKey string, t0 time.Time) int {
+	fn := propTable[id]
+	if fn == nil {
+		fmt.Fprintf(os.Stderr, "property %s is not claimed by this checker\n", id)
+		return 2
+	}
+	configs := [][2]string{{"", ""}}
+	if *flagTier == "thorough" {
+		configs = thoroughConfigs
+	}
+	var last *Check
+	rc := 0
+	var cfgNames []string
+	for i, cfg := range configs {
+		p, err := loadProg(*flagRepo, cfg[0], cfg[1])
+		name := cfg[0] + "/" + cfg[1]
+		if cfg[0] == "" {
+			name = "host"
+		}
+		cfgNames = append(cfgNames, name)
+		if err != nil {
+			c := newCheck(id, &Prog{Dir: *flagRepo, DepVers: map[string]string{}}, *flagTier)
+			c.undecided("load", name, "the repository does not load or type-check: "+err.Error(), "")
+			c.Config = strings.Join(cfgNames, ",")
+			return c.finish(*flagVerifD, t0, seed, onlyKey)
+		}
+		c := newCheck(id, p, *flagTier)
+		if *flagTier == "thorough" {
+			c.depth = 12
+		}
+		func() {
+			defer func() {
+				if r := recover(); r != nil {
+					c.undecided("engine", "panic", fmt.Sprintf("analysis panic: %v", r), "")
+				}
+			}()
+			fn(c)
+			runControls(c)
+		}()
+		if last != nil {
+			// merge: keep the first configuration's obligations, add failures of others
+			for _, o := range c.Obls {
+				if !o.OK {
+					o.Key = o.Key + "@" + name
+					last.Obls = append(last.Obls, o)
+				}
+			}
+			last.Searches += c.Searches
+			last.States += c.States
+			last.Edges += c.Edges
+		} else {
+			last = c
+		}
+		_ = i
+	}
+	last.Config = strings.Join(cfgNames, ",")
+	if r := last.finish(*flagVerifD, t0, seed, onlyKey); r > rc {
+		rc = r
+	}
+	return rc
+}
+
+func replay(t0 time.Time) int {
+	bs, err := os.ReadFile(*flagReplay)
+	if err != nil {
+		bs, err = os.ReadFile(*flagVerifD + "/" + *flagReplay)
+	}
+	if err != nil {
+		fmt.Fprintln(os.Stderr, "replay:", err)
+		return 2
+	}
+	s := string(bs)
+	prop := between(s, `"property": "`, `"`)
+	key := between(s, `"key": "`, `"`)
+	key = strings.ReplaceAll(key, `\"`, `"`)
+	key = strings.ReplaceAll(key, `>`, ">")
+	key = strings.ReplaceAll(key, `<`, "<")
+	key = strings.ReplaceAll(key, `&`, "&")
+	key = strings.ReplaceAll(key, `\\`, `\`)
+	if prop == "" || key == "" {
+		fmt.Fprintln(os.Stderr, "replay: file does not name a property and an obligation key")
+		return 2
+	}
+	fmt.Printf("replaying obligation %q of %s on the current tree\n", key, prop)
+	return runOne(prop, 0, key, t0)
+}
+
+func between(s, a, b string) string {
+	i := strings.Index(s, a)
+	if i < 0 {
+		return ""
+	}
+	s = s[i+len(a):]
+	// find unescaped terminator
+	for j := 0; j < len(s); j++ {
+		if s[j] == '\\' {
+			j++
+			continue
+		}
+		if strings.HasPrefix(s[j:], b) {
+			return s[:j]
+		}
+	}
+	return ""
+}
+
+// runControls is filled in by controls.go
+var controlFns = map[string]func(*Check){}
+
+func runControls(c *Check) {
+	if f := controlFns[c.Prop]; f != nil {
+		f(c)
+	}
+}
